@@ -123,7 +123,7 @@ def strategy(tier):
         {
             "inst": inst,
             "rule": rule,
-            "chooser": st.sampled_from(["first", "random", "FIRST_ENUM", "RANDOM_ENUM"]),
+            "chooser": st.sampled_from(["first", "random", "FIRST_ENUM", "RANDOM_ENUM", "custom_last"]),
             "filter": filt,
             "seed": st.integers(0, 1000),
         }
@@ -168,6 +168,7 @@ def build_solver(case):
         "random": "random",
         "FIRST_ENUM": MachineChooserType.FIRST,
         "RANDOM_ENUM": MachineChooserType.RANDOM,
+        "custom_last": lambda _dispatcher, operation: operation.machines[-1],
     }[case["chooser"]]
     f = case["filter"]
     if f == "default":
@@ -284,6 +285,12 @@ def check_case(case, ctx):
                 "first-chooser",
                 f"{where}: first chooser must pick {mach[j][p][0]}",
             )
+        if case["chooser"] == "custom_last":
+            ctx.check(
+                mm == mach[j][p][-1],
+                "custom-chooser-ignored",
+                f"{where}: the machine chooser passed to the solver picks {mach[j][p][-1]}",
+            )
         # criterion
         rem_work = [sum(dur[x][m.next[x]:]) for x in range(m.n_jobs)]
         if kind == "shortest_processing_time":
@@ -380,7 +387,7 @@ def check_case(case, ctx):
         "solved_by",
         f"metadata['solved_by'] = {sched.metadata.get('solved_by')!r}",
     )
-    if case["chooser"] in ("first", "FIRST_ENUM") and kind not in ("random",):
+    if case["chooser"] in ("first", "FIRST_ENUM", "custom_last") and kind not in ("random",):
         ctx.check(
             fp.schedule(sched) == fp.schedule(d.schedule),
             "solve-vs-steps",
